@@ -30,6 +30,40 @@ func VerifH_C03_int() {
 	vCover("C03.int.overflow-rejected", err != nil && st == refOK && hi != 0)
 }
 
+// readString against the RFC 7541 5.2 reference for every input of up to 12
+// bytes (so every length prefix up to 2^64-1, with at most 11 bytes of string
+// data actually present), raw and Huffman-coded (coded part at most 1 byte
+// quick / 3 thorough): no trap, same accept/reject, same string, same
+// remaining input.
+//
+//verif:harness prop=C03,C16 unwind=24 timeout=600
+func VerifH_C03_str() {
+	b := vBytes(vRange(0, 12))
+	pre := vBytes(vRange(0, 1))
+	if len(b) > 0 && b[0]&0x80 != 0 {
+		// Huffman: keep the coded part short (the decoder itself is C15)
+		vAssume(b[0]&0x7f <= byte(vPick(1, 3)))
+	}
+	want, used, st := refReadStr(b)
+	rest, dst, err := readString(append([]byte(nil), pre...), b)
+	if st == refOK {
+		vAssert(err == nil, "C03.str.rejects-valid")
+		if err == nil {
+			vAssert(len(rest) == len(b)-used, "C03.str.consumed")
+			vAssert(len(dst) == len(pre)+len(want), "C03.str.length")
+			for i := range pre {
+				vAssert(dst[i] == pre[i], "C03.str.prefix-kept")
+			}
+			vAssert(refBytesEq(dst[len(pre):], want), "C03.str.bytes")
+		}
+	} else {
+		vAssert(err != nil, "C03.str.accepts-invalid")
+	}
+	vCover("C03.str.huge-length", st == refNeedMore && len(b) == 11 && b[10] == 1)
+	vCover("C03.str.raw", st == refOK && len(want) == 5)
+	vCover("C03.str.huffman", st == refOK && len(b) > 0 && b[0]&0x80 != 0 && len(want) == 1)
+}
+
 // vC03State builds an arbitrary small decoder state and the matching
 // reference table: ne dynamic entries with 1-byte names and 0..1-byte values,
 // any current maximum that holds them, any advertised limit above it (up to
@@ -54,7 +88,7 @@ func vC03State(ne int) (*HPACK, *refTable) {
 	return hp, t
 }
 
-// One call of the field decoder on every input of up to 5 (quick) / 7
+// One call of the field decoder on every input of up to 4 (quick) / 7
 // (thorough) bytes with an empty dynamic table and arbitrary table limits,
 // against the RFC 7541 reference: same accept/reject, same field, same
 // remaining bytes, same dynamic table afterwards. Huffman-coded strings are
@@ -63,7 +97,7 @@ func vC03State(ne int) (*HPACK, *refTable) {
 //verif:harness prop=C03 unwind=24 timeout=600 timeoutT=5000
 func VerifH_C03_field() {
 	hp, t := vC03State(0)
-	vC03Field(hp, t, vPick(5, 7))
+	vC03Field(hp, t, vPick(4, 7))
 }
 
 // The same from a decoder state with 1 or 2 dynamic entries, on every input
@@ -85,7 +119,7 @@ func vC03Field(hp *HPACK, t *refTable, maxLen int) {
 
 	// reference: size updates (if legal here) followed by one field
 	at := blockStart && fieldsProcessed == 0
-	pos, st, got := 0, refOK, false
+	pos, st, got, nupd := 0, refOK, false, 0
 	var f refField
 	for pos < len(b) {
 		var upd bool
@@ -99,8 +133,17 @@ func vC03Field(hp *HPACK, t *refTable, maxLen int) {
 			got = true
 			break
 		}
+		nupd++
 	}
 	vAssume(!vC03SawHuffman(b))
+	// quick tier: at most one table size update in front of the field
+	vAssume(vTier() > 0 || nupd <= 1)
+	if vTier() == 0 && got && f.sidx != 0 {
+		// quick tier: references to the static table are explored for ten
+		// representative entries (every distinct shape: with/without value,
+		// shortest/longest name); the thorough tier takes all 61
+		vAssume(vC03QuickStatic(f.sidx))
+	}
 
 	rest, err := hp.nextField(hf, blockStart, fieldsProcessed, b)
 	switch {
@@ -171,4 +214,12 @@ func vC03SawHuffman(b []byte) bool {
 		return false
 	}
 	return false
+}
+
+func vC03QuickStatic(i uint64) bool {
+	r := false
+	for _, k := range [10]uint64{1, 2, 4, 5, 8, 16, 23, 32, 58, 61} {
+		r = vOr(r, i == k)
+	}
+	return r
 }
